@@ -516,6 +516,12 @@ def send_request(u):
     for shape in ('', 'P', 'WP', 'W'):                  # send_request(request, timeout=Tp)
         L.append(dict(name='fn_send_request_percall_%s' % (shape or 'silence'), params=[('T', 'Z'), ('Tp', 'Z')] + base + arr(shape), result='S',
                       call=make(shape, True, percall=True)))
+    for shape in ('', 'P', 'W'):                        # ... with request_timeout None in the configuration
+        L.append(dict(name='fn_send_request_percall_no_overall_%s' % (shape or 'silence'), params=[('Tp', 'Z')] + base + arr(shape), result='S',
+                      call=make(shape, False, percall=True)))
+    for shape in ('W', 'WP'):                           # ... after a session change that supplied server timings
+        L.append(dict(name='fn_send_request_percall_server_%s' % shape, params=[('T', 'Z'), ('Tp', 'Z'), ('S2', 'Z'), ('S2S', 'Z')] + base + arr(shape), result='S',
+                      call=make(shape, True, percall=True, server=True)))
     for shape in ('', 'P', 'WP', 'W'):                  # after a session change that supplied server timings
         L.append(dict(name='fn_send_request_server_%s' % (shape or 'silence'), params=[('T', 'Z'), ('S2', 'Z'), ('S2S', 'Z')] + base + arr(shape), result='S',
                       call=make(shape, True, server=True)))
